@@ -493,6 +493,9 @@ static int _GD_Change(DIRFILE *D, const char *field_code, const gd_entry_t *N,
         }
       }
       memcpy(Qe.u.raw.file, E->e->u.raw.file, sizeof(struct gd_raw_file_));
+      /* the cached sample size must follow the type (gd_getdata sizes its
+       * buffer with it) */
+      Qe.u.raw.size = GD_SIZE(Q.EN(raw,data_type));
 
       break;
     case GD_LINCOM_ENTRY:
